@@ -100,13 +100,13 @@ func clCASOutcomesConsumed(c *Ctx) {
 		if pk != modPath && pk != modPath+"/skiplist" {
 			continue
 		}
-		fi := p.Info(fn)
+		fi := p.Info(p.Root(fn))
 		for _, in := range p.Own(fn) {
 			isCAS := false
 			var args []ssa.Value
 			if k, _ := atomicOp(in); k == "CAS" {
 				isCAS = true
-				args = callOf(in).Args
+				args = atomicArgs(in)
 			} else if p.IsCall(in, dcas) {
 				isCAS = true
 			}
@@ -131,7 +131,7 @@ func clCASOutcomesConsumed(c *Ctx) {
 					f, _ := addrField(args[0])
 					acquired := false
 					for _, x := range fi.Instrs {
-						if k, on := atomicOnField(x, f); on && k == "CAS" && isConstInt(0)(callOf(x).Args[1]) && isConstInt(1)(callOf(x).Args[2]) && fi.Dominates(x, in) {
+						if k, on := atomicOnField(x, f); on && k == "CAS" && isConstInt(0)(atomicArgs(x)[1]) && isConstInt(1)(atomicArgs(x)[2]) && fi.Dominates(x, in) {
 							acquired = true
 						}
 					}
